@@ -20,6 +20,24 @@ PROPS = {
         "shards": {"quick": 12, "thorough": 16}, "timeout": {"quick": 700, "thorough": 14000},
         "floors": {"quick": {"table_images_compared": 1500, "classification_samples": 100000, "crash_points": 20}, "thorough": {"table_images_compared": 50000, "crash_points": 1000}},
     },
+    "C06": {
+        "test": "TestVerif_C06", "level": "exploration", "owns_races": True,
+        "rule": "(i) bounded-exhaustive: every alloc/release sequence of length L (6 quick, 8 thorough) over 3 sessions on a /30 and a /29 pool in lock-step with a reference pool; (ii) random sequential histories on /30../20 with more sessions than addresses; (iii) concurrent histories (4-12 goroutines, 3-8 sessions, /30../28, GOMAXPROCS varied) recorded at the API boundary and checked for linearizability with porcupine against the reference pool + conservation invariant under the pool's own lock; (iv) UE addresses in Created PDR over PFCP on a /29 pool; distinct = sampled sequential codes, <prefix length, pool filled?> classes, concurrent histories whose operations actually overlapped by <prefix, goroutines, sessions, length>, distinct addresses seen end to end",
+        "shards": {"quick": 12, "thorough": 16}, "timeout": {"quick": 600, "thorough": 14000}, "gomaxprocs": 8,
+        "floors": {"quick": {"concurrent_histories": 2000, "histories_with_overlapping_operations": 200, "e2e_establishments": 50}, "thorough": {"concurrent_histories": 100000}},
+    },
+    "C17": {
+        "test": "TestVerif_C17", "level": "exploration", "thorough_norace": True,
+        "rule": "quick: all ranges with both ends in {0,1,2,2^k-1,2^k,2^k+1,65534,65535} + 1.2M seeded random ranges, both single-range strategies and the trivial conversion; thorough: ALL 2^32 (low, high) values (inverted ones denote the empty set), non-race build (pure functions, no goroutines); plus pairs of ranges from boundary classes and random pairs for CreatePortRangeCartesianProduct; set equality decided algebraically (aligned power-of-two blocks: alignment, disjointness, contiguity) and by direct membership for non-prefix masks; distinct = boundary pairs + sampled <width class, low magnitude> classes + range pairs",
+        "shards": {"quick": 8, "thorough": 16}, "timeout": {"quick": 600, "thorough": 10000},
+        "floors": {"quick": {"single_ranges_checked": 1000000, "range_pairs_checked": 10000}, "thorough": {"single_ranges_checked": 4294967296}},
+    },
+    "C18": {
+        "test": "TestVerif_C18", "level": "exploration",
+        "rule": "schema-driven JSONC documents (per field: absent / valid / boundary / invalid / wrong JSON type), each loaded comment-free and twice with // and single-line /* */ comments, CRLF and odd whitespace at random inter-token positions; expected configuration = encoding/json decoding of the comment-free document + documented defaults (metamorphic for the commented variants); validity predicates on every returned configuration; documents with comment markers inside strings, multi-line block comments, truncated documents and arbitrary bytes for crash-freedom/validity only; every shipped upf*.jsonc; distinct = <field count, heartbeat flag, p4 flag, resp_timeout value> classes + marker/byte classes + samples",
+        "shards": {"quick": 8, "thorough": 16}, "timeout": {"quick": 600, "thorough": 10000},
+        "floors": {"quick": {"loader_calls": 20000, "documents_loaded": 1000}, "thorough": {"loader_calls": 1000000}},
+    },
     "C10": {
         "test": "TestVerif_C10", "level": "exploration",
         "rule": "scenario = {0..n associations (some >100)} x {0-3 sessions} x trigger per association {release, silence->read timeout(+heartbeat failure), unanswered heartbeats, live} x requests in flight x datapath reply delay x PFCPIface.Stop() at a drawn offset (+-3.5 ms around the coinciding triggers), fresh agent per scenario, plus a 'refresh' family (association ends without Stop, same address:port associates afresh, bystander association checked); distinct = distinct interleaving signatures (datapath, heartbeat on/off, delay, stop offset in ms, multiset of per-association <trigger, order relative to Stop, release answered?, sessions>)",
